@@ -334,3 +334,45 @@ Definition mk_scen (n : nat) (f : option fault) (p : target) (ow ea ec : bool) :
   {| input := seq 1 n; flt := f; pre := p; overwrite := ow; early := ea; empty_centre := ec |}.
 Definition mk_fault (p : place) (c : nat) (k : fkind) : option fault :=
   Some {| where_ := p; at_chunk := c; kind := k |}.
+
+(* ---------- what a directory holds when it is opened afterwards ----------
+   (creation over a pre-existing valid catalog with overwrite: the old marker patch_ids.bin must not
+   outlive the old data.)  Whatever the outcome and at whatever moment the directory is looked at:
+   if it opens as a catalog it is either the untouched pre-existing one or holds the complete input. *)
+Inductive held := HClosed | HPre | HNew | HOther.
+Definition held_eqb (a b : held) : bool :=
+  match a, b with HClosed, HClosed | HPre, HPre | HNew, HNew | HOther, HOther => true | _, _ => false end.
+Definition held_of (sc : scen) (d : target) : held :=
+  if negb (openable d) then HClosed
+  else if target_eqb d (pre sc) then HPre
+  else match d with
+       | TDir _ r _ => if nlist_eqb r (input sc) then HNew else HOther
+       | _ => HOther
+       end.
+
+(* a returned catalog can be opened again and holds the input (or is the untouched old one); after
+   a failure (exception, hang) the path does not open, unless it is the untouched old catalog *)
+Definition cl_open_exact (ob : obs) (h : held) : bool :=
+  match ob, h with
+  | ORet _ _, HNew | ORet _ _, HPre => true
+  | ORet _ _, _ => false
+  | _, HClosed | _, HPre => true
+  | _, _ => false
+  end.
+
+Definition agree_held (v : impl) (par : bool) (sc : scen) (ob : obs) (h : held) : bool :=
+  match (if par then par_all v sc else Some (seq_run v sc)) with
+  | Some (o, d) => obs_eqb (model_obs sc o) ob && held_eqb (held_of sc d) h
+  | None => false
+  end.
+
+(* c09_case plus: flag 8 the content of the opened directory is the one `cur` or `fix` leaves;
+   flag 9 cl_open_exact; flag 10 the observation is consistent (opens <-> not HClosed, HPre -> untouched) *)
+Definition c09_case_held (par : bool) (sc : scen) (ob : obs) (untouched opens : bool) (h : held) : nat :=
+  c09_case par sc ob untouched opens
+  + 256 * code [ agree_held v_cur par sc ob h || agree_held v_fix par sc ob h;
+                 cl_open_exact ob h;
+                 Bool.eqb opens (negb (held_eqb h HClosed)) && implb (held_eqb h HPre) untouched ].
+
+(* a pre-existing valid catalog of k patches of other data *)
+Definition old_catalog (k : nat) : target := TDir false (seq 101 k) true.
